@@ -299,6 +299,22 @@ def run(eng, rep) -> None:
             n_j += 1
             what = "Encode" if "Encode" in lp.body_text else "Decode"
             site = "for %s in %s  [%s loop]" % (lp.target, lp.iter_src, what)
+            before = t.text_before(lp.node)
+            if re.search(r"\)\s*(noexcept\s*)?:\s*$", before) and ";" not in lp.body_text:
+                # the loop writes a constructor's member-initialiser list: C++ runs the initialisers in the order the members
+                # are DECLARED, whatever the order of the list
+                decl = [l2 for l2 in t.loops() if l2 is not lp and isinstance(l2.base, J.Getattr) and l2.base.attr == "fields" and JTemplate.src(l2.base) == JTemplate.src(b)
+                        and "(" not in l2.body_text and "=" not in l2.body_text and not re.search(r"\b(using|typedef|return)\b", l2.body_text) and l2.body_text.strip().endswith(";") and not RELEVANT_J.search(l2.body_text)]
+                if len(decl) == 1:
+                    d = decl[0]
+                    if d.sort_attr == "field_id" and not d.sort_reverse:
+                        rep.ok("R15.1", t.relpath, "struct block", site + " in a member-initialiser list", "members are declared in ascending field_id (line %d), which is the order initialisers run" % d.lineno)
+                    else:
+                        rep.violation("R15.1", t.relpath, "struct block", site + " in a member-initialiser list",
+                                      "the loop writes a constructor's member-initialiser list, and C++ runs member initialisers in the order the members are declared (`for %s in %s`, line %d: %s), not in the order of the list: the buffer is %sd in declaration order" % (d.target, d.iter_src, d.lineno, "declaration order" if d.sort_attr is None else "by " + str(d.sort_attr), what.lower()))
+                else:
+                    rep.undecided("R15.1", t.relpath, "struct block", site + " in a member-initialiser list", "member declaration loop not identified (%d candidates)" % len(decl))
+                continue
             if lp.sort_attr == "field_id" and not lp.sort_reverse:
                 rep.ok("R15.1", t.relpath, "struct block", site, "ascending field_id")
             elif lp.sort_attr is None and not lp.sort_reverse:
